@@ -110,6 +110,16 @@ PLANS["C15"] = coll("C15", 300, 8000, ["commit_mut", "commit_mut_rev", "mut_drop
                     extra_quick=_c15a["quick"], extra_thorough=_c15a["thorough"][:4])
 PLANS["C16"] = coll("C16", 400, 10000, ["split", "merge_ok", "merge_rejected", "split_interior", "split_prefix", "split_suffix", "split_empty", "split_full"])
 
+PLANS["C17"] = dict(
+    level="exploration",
+    need=["pair:dyn", "pair:try_vs_panicking", "pair:inherent_vs_trait", "req:IterMutRev", "req:Reserve", "req:Raw", "req:TypedLayout", "req:CStrFmtMut", "req:SliceFillWith"],
+    rule="evaluations = lock-step histories: two arenas in identical states (congruent chunk addresses through MonAlloc) execute each generated request through two different, randomly paired entry points "
+         "(inherent Bump / BumpScope forwarders, trait impls on BumpScope, &Bump, &BumpScope, WithoutDealloc, WithoutShrink, dyn, each panicking and try_); non-trivial = at least one request returned a block; distinct by (configuration, request list)",
+    quick=[("dbg", "lockstep", [], 16, ["--histories", "300"]), ("rel", "lockstep", [], 16, ["--histories", "900"]), ("miri", "lockstep", ["--ops", "40"], 8, ["--histories", "2"])],
+    thorough=[("dbg", "lockstep", [], 16, ["--histories", "8000"]), ("rel", "lockstep", ["--ops", "300"], 16, ["--histories", "20000"]),
+              ("asan", "lockstep", [], 16, ["--histories", "4000"]), ("miri", "lockstep", ["--ops", "60"], 16, ["--histories", "6"])],
+)
+
 # ---------------------------------------------------------------------------------------------
 # building
 
